@@ -9,14 +9,18 @@
 (*     the IDN library's for IDN errors and otherwise talks about the right thing (C08, C15)               *)
 (*   - eav_errstr describes the most recent validation or refused eav_setup (C13, C15)                     *)
 (*   - eav_free leaves nothing allocated (C06, C13)                                                        *)
+(*   - C13 as stated: over the whole recorded process (all objects, all histories) the outcome is a        *)
+(*     function of (confirmed mode, tld_check, allow_tld, address): the history variable `seen` keeps the   *)
+(*     first outcome of every such tuple and a later, different outcome fails clause "function"            *)
 (* Disagreement with the model's own predicted values is only counted (drift).                             *)
 EXTENDS Eav, Json, IOUtils, TLC
-VARIABLES l, st, lastErr, ref      \* ref = reference messages of the build, logged at reset
+VARIABLES l, st, lastErr, ref,     \* ref = reference messages of the build, logged at reset
+          seen                     \* (confirmed mode, tld_check, allow_tld, address) -> outcome, over the whole process
 
 TraceLog == ndJsonDeserialize(IOEnv.TRACE)
 N == Len(TraceLog)
 O == DefaultOpts
-vars == <<l, st, lastErr, ref>>
+vars == <<l, st, lastErr, ref, seen>>
 
 MaskSet(n) == {b \in 0..10 : (n \div (2 ^ b)) % 2 = 1}
 Fails(name, cond) == IF cond THEN {} ELSE {name}
@@ -44,19 +48,22 @@ StepOf(ev, s) ==
     [] ev.e = "errstr" -> EavErrstr(s)
     [] ev.e = "free" -> EavFree("idn2", s)
 
-IsEmailWhy(ev, s, rf) ==
+KeyOf(ev, s) == <<s.confirmed, s.tld, s.allow, ev.in>>
+OutcomeOfEv(ev) == <<ev.ret, ev.err, ev.rc, ev.fl, ev.idn, ev.msg>>
+IsEmailWhy(ev, s, rf, sn) ==
   LET obsres == [rc |-> ev.rc, v4 |-> ev.fl = 1, v6 |-> ev.fl = 2, dom |-> ev.fl = 4, idn |-> ev.idn]
       pol == OutcomeOf(obsres, s.allow)
       p == EmailP(O, s.confirmed, s.tld, ev.in) IN
   Fails("legal", CanValidate(s)) \cup
   Fails("history", <<ev.ret, ev.err, ev.rc, ev.fl>> = ev.fresh) \cup
+  Fails("function", KeyOf(ev, s) \in DOMAIN sn => sn[KeyOf(ev, s)] = OutcomeOfEv(ev)) \cup
   Fails("policy", ev.ret = pol.ret /\ ev.err = pol.err) \cup
   Fails("decision", (p.exp = 1 => ev.rc >= 0) /\ (p.exp = 0 => ev.rc < 0) /\ (p.exp \in {0, 1} /\ p.erc # NOPIN => ev.rc = p.erc)) \cup
   Fails("message", (ev.err = E_IDN_ERROR => ev.msgidn = 1) /\ MsgOk(ev.err, ev.msg, rf)) \cup
   Fails("idn", ("cc" \in DOMAIN ev /\ ev.cc # 0 /\ s.confirmed = RFC6531 /\ p.exp = 3) => ev.err = E_IDN_ERROR /\ ev.fl = 0 /\ ev.idn = ev.cc)
 
-WhyEv(ev, s, le, rf) ==
-  CASE ev.e = "is_email" -> IsEmailWhy(ev, s, rf)
+WhyEv(ev, s, le, rf, sn) ==
+  CASE ev.e = "is_email" -> IsEmailWhy(ev, s, rf, sn)
     [] ev.e = "setup" -> Fails("setup", CanUse(s) /\ ev.ret = (IF s.rfc \in 0..3 THEN 0 ELSE E_INVALID_RFC))
     [] ev.e = "errstr" -> Fails("errstr", CanUse(s) /\ ev.null = 0 /\ ev.err = le /\ MsgOk(ev.err, ev.msg, rf))
     [] ev.e = "free" -> Fails("heap", ev.live = 0 /\ ev.badfree = 0)
@@ -69,11 +76,16 @@ NextErr(ev, le) == CASE ev.e = "is_email" -> ev.err
                      [] ev.e \in {"init", "reset"} -> 0
                      [] OTHER -> le
 
-Init == l = 0 /\ st = Raw /\ lastErr = 0 /\ ref = [noerr |-> <<>>, badrfc |-> <<>>]
-Next == l < N /\ l' = l + 1 /\ st' = StepOf(TraceLog[l + 1], st) /\ lastErr' = NextErr(TraceLog[l + 1], lastErr)
-        /\ ref' = IF TraceLog[l + 1].e = "reset" THEN [noerr |-> TraceLog[l + 1].noerr, badrfc |-> TraceLog[l + 1].badrfc] ELSE ref
+Init == l = 0 /\ st = Raw /\ lastErr = 0 /\ ref = [noerr |-> <<>>, badrfc |-> <<>>] /\ seen = <<>>
+Next == /\ l < N
+        /\ l' = l + 1
+        /\ st' = StepOf(TraceLog[l + 1], st)
+        /\ lastErr' = NextErr(TraceLog[l + 1], lastErr)
+        /\ ref' = (IF TraceLog[l + 1].e = "reset" THEN [noerr |-> TraceLog[l + 1].noerr, badrfc |-> TraceLog[l + 1].badrfc] ELSE ref)
+        /\ seen' = (LET ev == TraceLog[l + 1] IN
+                    IF ev.e = "is_email" /\ KeyOf(ev, st) \notin DOMAIN seen THEN (KeyOf(ev, st) :> OutcomeOfEv(ev)) @@ seen ELSE seen)
 \* evaluated in the state BEFORE event l+1 is consumed
-Ok == l = N \/ WhyEv(TraceLog[l + 1], st, lastErr, ref) = {} \/ PrintT(<<"BAD", l + 1, WhyEv(TraceLog[l + 1], st, lastErr, ref)>>)
+Ok == l = N \/ WhyEv(TraceLog[l + 1], st, lastErr, ref, seen) = {} \/ PrintT(<<"BAD", l + 1, WhyEv(TraceLog[l + 1], st, lastErr, ref, seen)>>)
 \* the model itself never detects a misuse of memory by the library along the recorded history
 ModelOk == NoMisuse(st) /\ HeapOk(st)
 =============================================================================
